@@ -113,6 +113,29 @@ def body():
         # hello randoms and key shares are public: a draw that went on the wire in clear is not a secret -- only count draws that are not
         # transmitted: rather than guess, report any hit; the public randoms never appear on fd 1/2 in a quiet build either
         ops.append((key, {"e": "Op", "name": key, "explicit": 0, "hits": hits, "nsec": len(secrets), "bytes_on_fd12": len(hay) - 1}, hay[-600:].decode(errors="replace")))
+    # (c) a peer that is not the library sends, right after the handshake, correctly protected records that are not application data (a NewSessionTicket-shaped
+    # handshake message, a ChangeCipherSpec, an unknown type) carrying a recognisable plaintext: whatever the receiver makes of them, the decrypted bytes stay off fd 1/2
+    import roguepeer, concurrent.futures as cf
+    sexe = vlib.cc_driver("srvdrv", ["srvdrv.c", "vh.c"])
+    jobs = [(proto, role, dev) for proto in (257, 771, 772) for role in ("server", "client") for dev in ("post_hs_handshake", "post_hs_ccs", "post_hs_unknown")]
+
+    def one(j):
+        proto, role, dev = j
+        sp = "tlcp" if proto == 257 else "srv"
+        if role == "server":          # the library is the server, the independent client deviates
+            return j, roguepeer.run(creds, sexe, proto, sp + "_d2", "-", dev, capture=True)
+        return j, roguepeer.run_server(creds, sexe, proto, sp + "_d2", "trust_root", dev, capture=True)
+    with cf.ThreadPoolExecutor(9) as ex:
+        for (proto, role, dev), (view, evs, san, hay) in ex.map(one, jobs):
+            key = "c19:posths:p%d:library-%s:%s" % (proto, role, dev)
+            if san:
+                c.note("%s: library process ended abnormally (%s): judged by C06, skipped here" % (key, str(san)[:120]))
+                continue
+            hs = [e for e in evs if e.get("e") == "HsRet"]
+            if not hs or hs[0].get("rc") != 1:
+                raise RuntimeError("%s: the handshake with the independent peer did not complete, the scenario tests nothing: %s %s" % (key, view, hs))
+            hits = find(hay, [("post-handshake record plaintext", roguepeer.POST_MARK)])
+            ops.append((key, {"e": "Op", "name": key, "explicit": 0, "hits": hits, "nsec": 1, "bytes_on_fd12": len(hay) - 1}, hay[-600:].decode(errors="replace")))
     for key, ev, _ in ops:
         c.count(1, key)
     rej, states = vlib.validate("Leak", [[ev] for _, ev, _ in ops], tag="c19", shards=2)
